@@ -12,6 +12,9 @@ R5 server binding           reply never exceeds `size`: ENOMEM gate, add_dirent'
 R6 readdirplus references   lookup reference kept exactly for delivered entries (C08.R2 shared)
 R7 wrappers                 VFS and passthrough closures change only the inode number (and the entry) and return the
                             consumer's result unchanged, so Ok(0) stops the producer
+R2 (cont.)                  rewind-and-scan fallback: the loop ends on error, end of directory, first batch after the cookie or the non-empty rest of the cookie's batch; a miss discards the batch
+R3 (cont.)                  polarity of error-only-if-first
+R5-toggles                  the layers run in the mode negotiated for OPENDIR (shared with C12.R5)
 """
 import json
 import os
@@ -731,3 +734,4 @@ META = {
     "note": "Not decided: the behaviour of the host's getdents64/lseek cookies, concurrent modification of the directory, and the end-to-end "
             "reassembly over all buffer sizes (run-time quantities).",
 }
+META["text"] += " " + "Also: the rewind-and-scan fallback loop's exits, polarity of error-only-if-first, the negotiated opendir mode per layer (C12.R5)."
